@@ -134,6 +134,26 @@ non-trivial = the parser yielded at least one statement from a mutated input (so
         if a.only.is_some() { println!("CASE {idx}: {f:?} kind {kind} input {shown:?}"); }
         sum.evaluations += 1;
     }
+    // ---------- validators vs the regenerated regexes (evaluated inside Coq) ----------
+    // strings over the boundary code points of every class (each range end and its neighbours)
+    let mut cases: Vec<(usize, String)> = vec![];
+    if a.only.is_none() && profile == "dev" {
+        let bounds: Vec<u32> = { let ends = [0x2Du32, 0x2E, 0x30, 0x39, 0x3A, 0x41, 0x5A, 0x5F, 0x61, 0x7A, 0xB7, 0xC0, 0xD6, 0xD7, 0xD8, 0xF6, 0xF7, 0xF8, 0x2FF, 0x300, 0x36F, 0x370, 0x37D, 0x37E, 0x37F, 0x1FFF, 0x2000, 0x200C, 0x200D, 0x203F, 0x2040, 0x2070, 0x218F, 0x2C00, 0x2FEF, 0x3001, 0xD7FF, 0xF900, 0xFDCF, 0xFDF0, 0xFFFD, 0xFFFE, 0x10000, 0xEFFFF, 0xF0000];
+            let mut v: Vec<u32> = vec![]; for e in ends { for d in [-1i64, 0, 1] { let c = e as i64 + d; if c >= 0 { v.push(c as u32) } } } v.sort(); v.dedup(); v };
+        let chars: Vec<char> = bounds.iter().filter_map(|c| char::from_u32(*c)).collect();
+        let nval = (a.n / 4).max(200).min(3000);
+        for k in 0..nval {
+            let mut r = base.fork(1_000_000 + k as u64);
+            let len = r.below(5);
+            let mut st = String::new();
+            if r.chance(2, 3) { st.push(*r.pick(&['a', 'Z', '0', '_', 'é', '1'])); }
+            for _ in 0..len { st.push(if r.chance(1, 2) { *r.pick(&chars) } else { *r.pick(&['a', '.', '-', '9', '_', ':', 'B', '·']) }); }
+            let (b, v, t) = (BnodeId::new(st.as_str()).is_ok(), VarName::new(st.as_str()).is_ok(), LanguageTag::new(st.as_str()).is_ok());
+            cases.push((k, format!("val3_ok {} {} {} {}", coq_str(&st), coq_bool(b), coq_bool(v), coq_bool(t))));
+            sum.bump(&format!("validators:{}{}{}", b as u8, v as u8, t as u8));
+            sum.evaluations += 1;
+        }
+    }
     // deep nesting, each in a subprocess
     if a.only.is_none() {
         let exe = std::env::current_exe().unwrap();
@@ -149,6 +169,7 @@ non-trivial = the parser yielded at least one statement from a mutated input (so
         sum.oracle_failures.retain(|f| uniq.insert(f.1.chars().take(100).collect::<String>()));
         sum.oracle_failures.truncate(60);
         std::fs::create_dir_all(&a.out).unwrap();
+        if !cases.is_empty() { sum.shards = write_shards(&a.out, "From Sophia.C08 Require Import Model.", &cases, a.shards); sum.extra.push(("coq_cases".into(), cases.len().to_string())); }
         std::fs::write(format!("{}/summary.json", a.out), sum.to_json()).unwrap();
     }
     println!("c08 ({profile}): {} cases, {} distinct non-trivial, {} oracle failures", sum.evaluations, sum.distinct_nontrivial, sum.oracle_failures.len());
